@@ -138,11 +138,60 @@ def load_known():
     return findings, fixed
 
 
+def selftest(prop):
+    """thorough tier: rule-sensitivity self-test.  Applies the catalogued source mutations for this property to
+    SCRATCH COPIES of /repo's current tree (never /repo itself), re-runs the pack on each and records whether the
+    expected rule reported it.  Informational only: it never changes the verdict (on an edited tree a mutation's
+    anchor may legitimately not apply)."""
+    import subprocess
+    import tempfile
+    import shutil
+    out = {"applied": 0, "detected": 0, "not_applicable": 0, "missed": [], "results": []}
+    try:
+        sys.path.insert(0, VERIF)
+        from mutations.catalogue import MUTATIONS
+        from mutations import run as mrun
+    except Exception as e:  # pragma: no cover
+        out["error"] = "catalogue unavailable: %s" % e
+        return out
+    # fixed per-property path: cargo's scratch target dir keys its units on the workspace path
+    scratch = os.path.join(tempfile.gettempdir(), "barter-verif-selftest-%s" % prop)
+    shutil.rmtree(scratch, ignore_errors=True)
+    os.makedirs(scratch, exist_ok=True)
+    try:
+        for m in MUTATIONS:
+            if m["property"] != prop:
+                continue
+            repo = os.path.join(scratch, "repo")
+            mrun.copy_repo(repo)
+            err = mrun.apply(repo, m)
+            if err:
+                out["not_applicable"] += 1
+                out["results"].append({"id": m["id"], "status": "n/a", "why": err})
+                continue
+            out["applied"] += 1
+            env = dict(os.environ, VERIF_REPO=repo, VERIF_EVIDENCE_DIR=os.path.join(repo, ".evidence"), VERIF_TIER="quick",
+                       VERIF_NO_SELFTEST="1")
+            r = subprocess.run([os.path.join(VERIF, "check"), prop, "--tier", "quick"], env=env, capture_output=True, text=True)
+            import re
+            rules = sorted(set(re.findall(r"^  rule (\S+) @", r.stdout, re.M)))
+            hit = r.returncode == 1 and any(("%s:%s" % (prop, x)).startswith(m["expect"]) for x in rules)
+            if hit:
+                out["detected"] += 1
+            else:
+                out["missed"].append(m["id"])
+            out["results"].append({"id": m["id"], "desc": m["desc"], "expected_rule": m["expect"], "reported_rules": rules,
+                                   "exit": r.returncode, "status": "detected" if hit else "missed"})
+    finally:
+        shutil.rmtree(scratch, ignore_errors=True)
+    return out
+
+
 def run_pack(prop, tier="quick", replay=None, seed=0):
     t0 = time.time()
     try:
         facts = factsmod.get_facts(all_targets=False)
-        facts_all = factsmod.get_facts(all_targets=True) if tier == "thorough" else None
+        facts_all = None
     except factsmod.CheckerError as e:
         print("CHECKER-ERROR: %s" % e, file=sys.stderr)
         return 2
@@ -218,6 +267,9 @@ def run_pack(prop, tier="quick", replay=None, seed=0):
         },
     }
     ev["coverage"].update(ctx.extra)
+    if tier == "thorough" and not replay and not os.environ.get("VERIF_NO_SELFTEST"):
+        ev["coverage"]["selftest"] = selftest(prop)
+        ev["wall_s"] = round(time.time() - t0, 3)
     os.makedirs(EVDIR, exist_ok=True)
     with open(os.path.join(EVDIR, prop + ".json"), "w") as fh:
         json.dump(ev, fh, indent=1, default=str)
